@@ -206,11 +206,18 @@ func ScalePath64ToPathD(path Path64, scale float64) PathD {
 		ptX, _ := decimal.New(pt.X, 0)
 		ptY, _ := decimal.New(pt.Y, 0)
 
-		mulX, _ := ptX.Mul(dScale)
-		mulY, _ := ptY.Mul(dScale)
+		mulX, errX := ptX.Mul(dScale)
+		mulY, errY := ptY.Mul(dScale)
 
 		x, _ := mulX.Float64()
 		y, _ := mulY.Float64()
+		// the decimal product overflows beyond 19 digits (a negative precision): fall back to float64
+		if errX != nil {
+			x = float64(pt.X) * scale
+		}
+		if errY != nil {
+			y = float64(pt.Y) * scale
+		}
 
 		result[i] = PointD{X: x, Y: y}
 	}
